@@ -18,6 +18,10 @@ with ThreadPoolExecutor(8) as ex:
     rows = list(ex.map(one, names))
 bad = 0
 for n, prop, expect, exv, rules in rows:
+    if expect == "missed":
+        # a recorded miss (DESIGN.md 10.6): listed, not counted; it stops being one when the check starts to report it
+        print(f"{'rec.' if exv != '1' else 'NOW '} {n:12s} {prop} expect={expect:9s} exit={exv} rules={rules}")
+        continue
     ok = (exv == "1") if expect == "violation" else (exv == "0")
     bad += 0 if ok else 1
     print(f"{'ok  ' if ok else 'MISS'} {n:12s} {prop} expect={expect:9s} exit={exv} rules={rules}")
